@@ -112,7 +112,7 @@ IP_HOSTS = ["[::1]", "[2001:DB8::1]", "[2001:db8:0:0:0:0:2:1]", "[::ffff:192.168
 
 
 @st.composite
-def hosts(draw, idn=True, upper=True, max_sub=2, tlds=TLDS, labels=ASCII_LABELS, ip=False, rootdot=False):
+def hosts(draw, idn=True, upper=True, max_sub=2, tlds=TLDS, labels=ASCII_LABELS, ip=False, rootdot=False, emptyhost=False):
     if ip and draw(st.integers(0, 11)) == 0:
         return draw(st.sampled_from(IP_HOSTS))
     h = draw(_name_hosts(idn=idn, upper=upper, max_sub=max_sub, tlds=tlds, labels=labels))
@@ -176,6 +176,11 @@ def url_structs(draw, dirty=True, userinfo=True, max_segments=4, max_items=4, we
             s["password"] = ""
     s["host"] = draw(host_strategy) if host_strategy is not None else draw(hosts(**(host_kw or {})))
     s["port"] = draw(PORTS)
+    if (host_kw or {}).get("emptyhost") and draw(st.integers(0, 24)) == 0:
+        # an authority without a host ('http://:8080/x', 'http://user@/x'): urlsplit parses it; only written with an explicit scheme or '//'
+        s["host"] = ""
+        if s["scheme_form"] == "absent":
+            s["scheme_form"], s["scheme"] = "explicit", "http"
     nseg = draw(st.integers(0, max_segments))
     segs = []
     for _ in range(nseg):
